@@ -75,6 +75,8 @@ const HOOKS: [ComplianceHook; 5] = [ComplianceHook::Transferred, ComplianceHook:
 
 #[derive(Clone, Debug, Serialize, Deserialize)]
 pub enum Step {
+    /// the clock (inserted by the core's clock faults)
+    Wait { n: u32 },
     AddModule { hook: usize, m: usize },
     RemoveModule { hook: usize, m: usize },
     Script { m: usize, ct: bool, cc: bool },
@@ -99,6 +101,9 @@ impl Check for RwaReal {
     fn id(&self) -> &'static str { "rwa_real" }
     fn runs(&self, tier: Tier) -> u64 { if tier == Tier::Quick { 400 } else { 30_000 } }
     fn components(&self) -> serde_json::Value { serde_json::json!({"real": ["RWA token wrapper", "rwa::compliance::storage (hooks, bound-token check)", "rwa::utils::token_binder", "identity_verifier + identity_registry_storage + claim_topics_and_issuers (no required topic)"], "stub": ["compliance Modules (scripted can_*, durable counters)", "NoClaims identity contract", "Wallet"]}) }
+    fn clock_step(&self, n: u32) -> Option<Step> {
+        Some(Step::Wait { n })
+    }
     fn generate(&self, rng: &mut Rng, tier: Tier) -> (Cfg, std::vec::Vec<Step>) {
         let cfg = Cfg { actors: 3 };
         let nsteps = if tier == Tier::Quick { 30 + rng.below(30) } else { 30 + rng.below(70) } as usize;
@@ -147,11 +152,18 @@ impl Check for RwaReal {
         let mods: std::vec::Vec<Address> = (0..3).map(|_| e.register(Module, ())).collect();
         let mut m = Model::default();
         for (i, s) in steps.iter().enumerate() {
+            if let Step::Wait { n } = s {
+                w.advance(*n);
+                st.ledgers += *n as u64;
+                st.hit("clock.advance");
+                continue;
+            }
             w.set_auth(&[]);
             let before = w.storage_digest(&[&tok, &comp, &mods[0], &mods[1], &mods[2]]);
             let all_true = |m: &Model, hook: usize, tbl: &BTreeMap<usize, bool>| m.mods(hook).iter().all(|x| *tbl.get(x).unwrap_or(&true));
             let mut outcome: Option<(&str, bool, bool)> = None;
             match s {
+                Step::Wait { .. } => unreachable!("handled above"),
                 Step::AddModule { hook, m: k } => {
                     let g = cc.try_add_module_to(&HOOKS[*hook], &mods[*k]).is_ok();
                     let x = !m.mods(*hook).contains(k) && m.mods(*hook).len() < 20;
